@@ -845,9 +845,9 @@ def run(ctx):
         bigmap = big and mv[0] == 'map'
         bt = intmap_bytes_term(out, len(mv[1])) if bigmap else bytes_term(out)
         if bigmap and not full_bigmap:
-            # the model's dict is an association list: checking 65536 keys for duplicates in Coq is quadratic;
-            # encode (I) and the spec read-back (R) here, the model's decode on the header cuts (and in full in
-            # the thorough tier for 65535/65536)
+            # the model's dict is an association list: checking 65536 keys for duplicates in Coq is quadratic
+            # (~15 min of CPU); encode (I) and the spec read-back (R) here, the model's decode on the header
+            # cuts; the full decode only with C14_BIGMAP_DECODE=1. The real code is run in full either way.
             ctx.histogram('bigmap_mode', 'encode+spec')
             cases.add('CEnc %s (Some %s)' % (value_term(mv), bt), info, big)
             cases.add('CSpec %s %s' % (bt, value_term(mv)), info, big)
@@ -930,6 +930,10 @@ def run(ctx):
                 add_decode(b + b'\xc0', 'int_form')
                 note_direct(direct_stream(real, ('int', z), b, rng), info)
                 add_cuts(b, 80)
+    # ext of every small size (fixext 1/2/4/8/16 and their neighbours)
+    for n in range(0, 19):
+        add_value(('ext', rng.randrange(128), rand_bytes(rng, n)), 'ext_size')
+        add_twin(('ext', rng.randrange(128), rand_bytes(rng, n)), 'ext_size')
     # containers propagate the refusal
     for z in (2 ** 64, -2 ** 63 - 1):
         add_value(('arr', [('int', 1), ('arr', [('int', z)])]), 'refusal')
@@ -942,7 +946,7 @@ def run(ctx):
         for fam, mv in length_values(n):
             ctx.histogram('length_case', '%s:%d' % (fam, n))
             out = add_value(mv, 'boundary_len', cuts=not isbig, big=isbig,
-                            full_bigmap=ctx.thorough() and n in (65535, 65536))
+                            full_bigmap=bool(os.environ.get('C14_BIGMAP_DECODE')) and n in (65535, 65536))
             if out is not None and isbig:
                 # cut points of a long encoding: the header, the first payload bytes, the end
                 for p in sorted(set(list(range(0, 7)) + ([len(out) - 1] if fam != 'map' else []))):
@@ -1085,13 +1089,15 @@ def run(ctx):
     infos = [i for _, i in cases.small]
     bad = ctx.run_cases(IMPORTS, PRELUDE, 'check_case', terms, case_type='case', shard=ctx.pick(600, 1500), timeout=800)
     bad_infos = [(terms[i], infos[i]) for i in bad]
-    # large cases: one per shard
+    # large cases: a few per shard
     if cases.big:
-        jobs = [(IMPORTS, PRELUDE + '\nDefinition cases__ : list case := [%s].\n' % t, ['bad_idx check_case cases__'])
-                for t, _ in cases.big]
-        for (t, info), res in zip(cases.big, ctx.coq_eval_many(jobs, timeout=800)):
-            if res[0]:
-                bad_infos.append((t, info))
+        per = 6
+        chunks = [cases.big[i:i + per] for i in range(0, len(cases.big), per)]
+        jobs = [(IMPORTS, PRELUDE + '\nDefinition cases__ : list case := [%s].\n' % ';\n'.join(t for t, _ in ch),
+                 ['bad_idx check_case cases__']) for ch in chunks]
+        for ch, res in zip(chunks, ctx.coq_eval_many(jobs, timeout=7200 if os.environ.get('C14_BIGMAP_DECODE') else 800)):
+            for i in res[0]:
+                bad_infos.append(ch[i])
     cov['correspondence_cases'] = len(cases.small) + len(cases.big)
     cov['correspondence_disagreements'] = len(bad_infos)
     ctx.log('correspondence: %d cases, %d disagreements' % (cov['correspondence_cases'], len(bad_infos)))
